@@ -148,5 +148,7 @@ int main() {
   if (hn == 1 && hd == 1) return dispatch<1, 1>(combo);
   if (hn == 1 && hd == 30) return dispatch<1, 30>(combo);
   if (hn == 1 && hd == 8) return dispatch<1, 8>(combo);
+  if (hn == 1 && hd == 3000000) return dispatch<1, 3000000>(combo);
+  if (hn == 1 && hd == 30000) return dispatch<1, 30000>(combo);
   return 6;
 }
